@@ -28,7 +28,7 @@ def make_spec(rng, force=None):
         "structure": structure,
         "nchrom": force.get("nchrom") or rng.choice([1, 2, 2, 3]),
         "nvars": rng.randint(6, 11),
-        "nreads": rng.randint(14, 32),
+        "nreads": rng.choice([rng.randint(4, 9), rng.randint(10, 20), rng.randint(20, 32)]),
         "recomb_prob": rng.choice([0.0, 0.15, 0.25, 0.35]),
         "gt_error": rng.choice([0.08, 0.15, 0.25]),
         "gl": rng.random() < 0.5,
@@ -37,6 +37,9 @@ def make_spec(rng, force=None):
         "read_len": rng.choice([[120, 380], [120, 380], [70, 170]]),
         # index of a chromosome on which every sample is homozygous ALT everywhere (nothing to phase), or None
         "all_hom_chrom": None,
+        # no read of any sample connects the two middle variants of a chromosome (at least two phase sets
+        # unless genetic haplotyping merges them)
+        "gap": rng.random() < 0.45,
     }
     if rng.random() < 0.06:
         spec["all_hom_chrom"] = rng.randrange(spec["nchrom"])
@@ -48,7 +51,7 @@ def make_options(rng, spec, lists, distrust, ped):
     o = {"reads": bool(lists[0]), "gts": bool(lists[1]), "recs": bool(lists[2]), "distrust": bool(distrust),
          "ped": bool(ped), "include_homozygous": bool(distrust and rng.random() < 0.6),
          "recombrate": rng.choice([1.26, 10000, 300000, 1000000, 1000000]), "genmap": False, "chromosomes": None,
-         "no_genetic_haplotyping": rng.random() < 0.4}
+         "no_genetic_haplotyping": rng.random() < 0.5}
     nchrom = spec["nchrom"]
     x = rng.random()
     if ped and x < 0.2:
@@ -151,7 +154,13 @@ def build_scenario(spec, wd):
     reads = []
     for s in samples:
         for c in sc.chroms:
-            reads += synth.simulate_reads(rng, sc, s, c, spec["nreads"], len_range=tuple(spec.get("read_len", (120, 380))))
+            rs = synth.simulate_reads(rng, sc, s, c, spec["nreads"], len_range=tuple(spec.get("read_len", (120, 380))))
+            vs = sc.variants[c]
+            if spec.get("gap") and len(vs) >= 4:
+                g = len(vs) // 2
+                lo, hi = vs[g - 1].pos, vs[g].pos
+                rs = [r for r in rs if not (r["start"] <= lo and r["start"] + sum(n for o, n in r["cigar"] if o in "MD") > hi)]
+            reads += rs
     synth.write_bam(sc, reads, os.path.join(wd, "reads.bam"))
     with open(os.path.join(wd, "fam.ped"), "w") as f:
         for k, (ch, fa, mo) in enumerate(trios):
